@@ -634,7 +634,11 @@ func genParserCases(focus string) func(r *rand.Rand, tier string, env *Env) []Ca
 			// sub-functions on their own
 			if focus == "except" && i%3 == 0 {
 				content := strings.Join([]string{"foo@", "bar~", "##! c", "", "baz", "  x@", "foo@"}[:2+r.Intn(5)], "\n") + "\n"
-				pairs := pick(r, []string{"@ ~", "~ @ @ x", "@ \"\"", "oo 00", "@ ~ ~ x", "a", "@ ~ x", " ", "@  ~\t~  y", "\u00a0@ ~", "@ x\v", "\v@ y\u00a0", "o \u2003"})
+				if i%6 == 3 {
+					// entries in which the characters before the ending are characters of the key as well
+					content = "beta@@\ngrub\\b\naab\nx~~\n@\n~@~\nab\n"
+				}
+				pairs := pick(r, []string{"@ ~", "~ @ @ x", "@ \"\"", "oo 00", "@ ~ ~ x", "a", "@ ~ x", " ", "@  ~\t~  y", "\u00a0@ ~", "@ x\v", "\v@ y\u00a0", "o \u2003", "@ X", "ab C", "\\b [\\s<>]", "~ Y @ Z"})
 				c.Ops = append(c.Ops, Op{"parse.replaceSuffixes", [][]byte{[]byte(content), []byte(pairs)}})
 			}
 			if focus == "defs" && i%3 == 0 {
